@@ -89,11 +89,17 @@ def run(prop=None, ids=None, workers=8, repo="/repo"):
     res.sort(key=lambda r: r["id"])
     errors = ["mutant %s: %s %s" % (r["id"], r["status"], r.get("why") or r.get("keys")) for r in res
               if r["status"] in ("missed", "nocompile", "error")]
+    neg = []
+    if prop is not None and ids is None:
+        neg = run_equivalent(workers=workers, repo=repo, props=[prop])
+        errors += ["behaviour-preserving edit %s: %s %s" % (r["id"], r["status"], r.get("keys") or r.get("why", "")) for r in neg
+                   if r["status"] not in ("silent", "skipped")]
     return dict(mutants=len(res), caught=sum(r["status"] == "caught" for r in res),
-                skipped=[r["id"] for r in res if r["status"] == "skipped"], errors=errors, results=res)
+                skipped=[r["id"] for r in res if r["status"] == "skipped"], errors=errors, results=res,
+                negative_controls=len(neg), negative_controls_silent=sum(r["status"] == "silent" for r in neg))
 
 
-def run_equivalent(workers=8, repo="/repo", ids=None):
+def run_equivalent(workers=8, repo="/repo", ids=None, props=None):
     """negative controls: every property's check must be silent on each behaviour-preserving edit"""
     sys.path.insert(0, os.path.join(VERIF, "mutants"))
     import equivalent
@@ -118,7 +124,7 @@ def run_equivalent(workers=8, repo="/repo", ids=None):
                 return dict(id=m["id"], status="nocompile", why=str(e)[-400:])
             known = {k["key"] for k in core.load_known().get("known", [])}
             alarms = []
-            for prop in rules.PROPS:
+            for prop in (props or rules.PROPS):
                 mod = rules.load(prop)
                 ctx = core.Ctx(prop, fx)
                 mod.run(ctx)
